@@ -2243,11 +2243,34 @@ func TestVerifC06(t *testing.T) {
 				// the cached snapshot replay fails; the cache is lost; the run restarts
 				master := wd.oA + wd.k1
 				srcA := vf6Source{id1: A, id2: vf6ZeroId, switchOff: -2, backlog: true, first: 1, blen: master, master: master, snapLen: wd.snap, capaId: true, k: wd.k2}
+				// failover=true (session 5): A has a previous id B (shared up to x) and an interrupted relabel left a stale
+				// LOWER record under B in another database. sendOutput's ResetStartPoint must delete the records of ALL the
+				// source's labels before the cached snapshot is replayed: a record left under B is what the restarted process
+				// reads (PSYNC B low+1 is granted) after the replay failed
+				stalePrev := wd.failover && wd.resume && wd.x >= 2*unit
+				if stalePrev {
+					srcA.id2, srcA.switchOff = B, wd.x
+				}
 				real := newOut(srcA)
 				bg := context.Background()
 				if wd.resume {
 					if err := real.ro.setCheckpoint(bg, A, wd.x, config.Version); err != nil {
 						t.Fatalf("seed checkpoint: %v", err)
+					}
+					if stalePrev {
+						cli, err := real.ro.NewRedisConn(bg)
+						if err != nil {
+							t.Fatal(err)
+						}
+						if _, err := cli.Do("select", 5); err != nil {
+							t.Fatal(err)
+						}
+						low := (wd.x / unit / 2) * unit
+						if err := checkpoint.SetCheckpoint(cli, &checkpoint.CheckpointInfo{Key: real.ro.cfg.CheckpointName, RunId: B, Offset: low, Version: config.Version}); err != nil {
+							t.Fatal(err)
+						}
+						cli.Close()
+						s.Count("window_cached_interrupted_stale_prev_label")
 					}
 				} else {
 					real.ro.checkpointInMem = checkpoint.CheckpointInfo{Key: real.ro.cfg.CheckpointName, RunId: A, Offset: wd.x, Version: config.Version}
@@ -2430,6 +2453,7 @@ func TestVerifC06(t *testing.T) {
 				wd.oA = 0
 			}
 			wd.k1 = int64(r.Intn(60))
+			wd.failover = wd.resume && r.Bool() // a stale lower record under the previous id (see runWindow)
 		}
 		wd.send = "rec"
 		if r.Bool() {
@@ -2446,8 +2470,8 @@ func TestVerifC06(t *testing.T) {
 	}
 
 	for _, l := range vfutil.Corpus("C06") {
-		if strings.HasPrefix(l, "att ") || strings.HasPrefix(l, "cut ") {
-			continue // session C06c (vf_c06_att_test.go)
+		if strings.HasPrefix(l, "att ") || strings.HasPrefix(l, "cut ") || strings.HasPrefix(l, "gcp ") {
+			continue // sessions C06c (vf_c06_att_test.go) and C06d (vf_c06_gc_test.go)
 		}
 		if strings.HasPrefix(l, "fault ") {
 			// fault <plan> <rounds> sync … : the first round's bookkeeping call <plan> fails, then <rounds>-1 more connections
@@ -2496,6 +2520,9 @@ func TestVerifC06(t *testing.T) {
 		runWindow(wd, "replay")
 		return
 	}
+	if rp := os.Getenv("VERIF_REPLAY_CASE"); strings.HasPrefix(rp, "gcp ") || strings.HasPrefix(rp, "att ") {
+		return // replayed by the session the case belongs to
+	}
 	if rp := os.Getenv("VERIF_REPLAY_CASE"); rp != "" {
 		c, err := vf6ParseCase(rp)
 		if err != nil {
@@ -2504,7 +2531,7 @@ func TestVerifC06(t *testing.T) {
 		runCase(c, "replay", 1)
 		return
 	}
-	n := vfutil.Scale(1200, 20000)
+	n := vfutil.Scale(900, 8000) // session 5: the collector x reconnection sampling moved to the enumeration of session C06d
 	for i := 0; i < n; i++ {
 		if len(s.Viol) >= 30 {
 			s.Count("stopped_after_30_violations")
